@@ -33,7 +33,7 @@
 (*          limit, offset]      where/having = [k|->"none"] if absent        *)
 (*         [k|->"union", l, r, all, limit, offset]                           *)
 (***************************************************************************)
-EXTENDS Builtins
+EXTENDS Selector
 
 None == [k |-> "none"]
 IsNone(e) == e.k = "none"
@@ -267,6 +267,13 @@ Source(from, data) ==
     CASE from.k = "table" ->
             LET v == PathGet(data, from.p)
             IN  IF IsErr(v) THEN Err
+                ELSE IF IsNull(v) THEN ArrV(<<>>)
+                ELSE IF IsArr(v) \/ IsObj(v) THEN ArrV(Wrap(AsRows(v), from.as))
+                ELSE Err
+      [] from.k = "sel" ->
+            \* a FROM path in the selector language (Selector.tla), e.g. `c[0].n`
+            LET v == EvalSel(data, from.sel)
+            IN  IF IsErr(v) \/ IsAny(v) THEN Err
                 ELSE IF IsNull(v) THEN ArrV(<<>>)
                 ELSE IF IsArr(v) \/ IsObj(v) THEN ArrV(Wrap(AsRows(v), from.as))
                 ELSE Err
